@@ -92,14 +92,14 @@ func runC06(p *Prog, r *Report) {
 	if us.OK() {
 		snd := us.Ev("send", "recv.recvQ")
 		fr := us.Ev("call", "mangos.(*Message).Free")
-		r.Check(len(snd) == 1 && snd.AllGuarded("sub.(*context).matches(…)") && snd[0].Args[0] == "select#2", R, "requeue-iff-still-matches", snd.Pos(p), "re-queued only under matches(m)", "an old message is re-queued without checking that it still matches the remaining subscriptions")
+		r.Check(len(snd) == 1 && snd.AllGuarded("sub.(*context).matches(…)") && strings.HasPrefix(snd[0].Args[0], "select(<-"), R, "requeue-iff-still-matches", snd.Pos(p), "re-queued only under matches(m)", "an old message is re-queued without checking that it still matches the remaining subscriptions")
 		// the only conditions on the discard: the topic was found (loop/equality atoms), the
 		// old queue yielded a message (select arm), and it no longer matches
 		okF := len(fr) == 1 && fr.AllGuarded("!sub.(*context).matches(…)")
 		if okF {
 			for _, a := range fr[0].Guard {
 				switch {
-				case a == "!sub.(*context).matches(…)", strings.HasPrefix(a, "select#"), strings.HasPrefix(a, "arm("), strings.HasPrefix(a, "!arm("), strings.HasPrefix(a, "bytes.Equal(recv.subs["):
+				case a == "!sub.(*context).matches(…)", strings.HasPrefix(a, "select#"), strings.HasPrefix(a, "select(<-"), strings.HasPrefix(a, "arm("), strings.HasPrefix(a, "!arm("), strings.HasPrefix(a, "bytes.Equal(recv.subs["):
 				case strings.Contains(a, "len(recv.subs)"), strings.HasSuffix(a, " >= 0"), strings.HasSuffix(a, " != -1"):
 				default:
 					okF = false
